@@ -331,7 +331,7 @@ func oracleC18API(a []string) string {
 				g := strings.Split(e, ":")
 				mcc, _ := strconv.Atoi(g[1])
 				mnc, _ := strconv.Atoi(g[2])
-				if mcc < 100 || mcc > 999 || mnc < 10 || mnc > 999 {
+				if mcc < 100 || mcc > 999 || mnc < 9 || mnc > 999 {
 					ok = false
 				}
 			}
@@ -398,7 +398,7 @@ func expectAPI(kind, s string) (string, bool) {
 		g := strings.Split(e, ":")
 		mcc, _ := strconv.Atoi(g[1])
 		mnc, _ := strconv.Atoi(g[2])
-		if mcc < 100 || mcc > 999 || mnc < 10 || mnc > 999 {
+		if mcc < 100 || mcc > 999 || mnc < 9 || mnc > 999 {
 			return "", false
 		}
 		d := []int{mcc / 100, mcc / 10 % 10, mcc % 10}
